@@ -29,14 +29,20 @@ def ImgData (isServer nego : Bool) (img : Bytes) : Prop :=
 def NoOpenWriter (s : W) : Prop := ∀ m ∈ s.mws, m.err.isSome
 
 /-- side conditions of a program, checked along its execution: sizes as in WireInv.OpOK, and a
-    prepared *data* message is only sent while no message writer is open (sending one in the middle
-    of a fragmented message is finding F8 of DESIGN.md and is excluded here). -/
+    prepared image is one control frame or one complete data message for this role.  Since the repair
+    of finding F8 of DESIGN.md (`WritePreparedMessage` of a data message first closes the message writer
+    the application left open) a prepared data message may be sent at any time — `NoOpenWriter` is
+    no longer required when the message type is a data type, which `WritePreparedMessage` guarantees for
+    a data image.  (The model's `Op.writePrepared t img` takes type and image separately; for the
+    impossible combination "data image sent with a control type" nothing is closed first, and only
+    there `NoOpenWriter` is still asked for.) -/
 def Admissible (s : W) : List Op → Prop
   | [] => True
   | op :: ops =>
     OpOK s.isServer op ∧
     (match op with
-     | .writePrepared _ img => ImgControl s.isServer img ∨ (ImgData s.isServer s.nego img ∧ NoOpenWriter s)
+     | .writePrepared t img _ _ =>
+       ImgControl s.isServer img ∨ (ImgData s.isServer s.nego img ∧ (isData t = true ∨ NoOpenWriter s))
      | _ => True) ∧
     Admissible (applyOp s op).2 ops
 
@@ -115,7 +121,8 @@ def EnvAdmissible (s : W) : List Op → Prop
 open WS.WFInv in
 theorem applyOp_good {c : Cfg} {s : W} (op : Op) (hg : Good c s)
     (hpre : match op with
-      | .writePrepared _ img => ImgControl s.isServer img ∨ (ImgData s.isServer s.nego img ∧ NoOpenWriter s)
+      | .writePrepared t img _ _ =>
+        ImgControl s.isServer img ∨ (ImgData s.isServer s.nego img ∧ (isData t = true ∨ NoOpenWriter s))
       | _ => True)
     (hop : OpOK s.isServer op) (henv : EnvOK s op) : Good c (applyOp s op).2 := by
   have hsv : s.isServer = c.sv := by obtain ⟨o, hI, _⟩ := hg; exact hI.isv
@@ -135,13 +142,15 @@ theorem applyOp_good {c : Cfg} {s : W} (op : Op) (hg : Good c s)
   | writeJSON enc dnp fullp dn full =>
     exact writeJSON_good enc dnp fullp dn full hg hop.1 hop.2.1 hop.2.2 henv
   | writeControl t data d => exact writeControl_good t data d hg
-  | writePrepared t img =>
+  | writePrepared t img dnp fullp =>
     simp only [applyOp]
     dsimp only at hpre
+    have hdn : isData t = true → ∀ x ∈ dnp, x.length < 2 ^ 40 := hop.2
+    have henv' : isData t = true → PrevEnvOK s dnp fullp := henv
     rcases hpre with ⟨t', key, data, ht', hd, rfl⟩ | ⟨⟨gs, hdec, hwf, hend, _, _⟩, hno⟩
     · rw [hsv]
-      exact good_preparedCtl t t' key data hg ht' hd
-    · refine good_preparedData t img gs hg hdec ?_ hend hno
+      exact good_preparedCtl t t' key data dnp fullp hg ht' hd hdn henv'
+    · refine good_preparedData t img dnp fullp gs hg hdec ?_ hend hno hdn henv'
       rw [hsv, hng] at hwf
       exact hwf
   | setWriteDeadline d => exact hg.congr rfl rfl rfl rfl rfl rfl rfl rfl rfl
